@@ -36,6 +36,18 @@ inductive Op
   | setRules (c : Chain) (rules : List Str)
   /-- a new block with time `now` starts on `c` -/
   | setTime (c : Chain) (now : Nat)
+  /-- `MsgCreateClient` signed by `auth`; `csValid` = the client state passes its stateless
+      `Validate()` (its fields are outside the model) -/
+  | createClientMsg (c : Chain) (auth : Addr) (q : Chain) (ctype : String) (h t period : Nat) (csValid : Bool) (consSame : Bool)
+  /-- `MsgUpgradeClient` -/
+  | upgradeClientMsg (c : Chain) (auth : Addr) (q : Chain) (ctype : String) (h t period : Nat) (csValid : Bool) (consSame : Bool)
+  /-- `MsgRegisterRelayer` -/
+  | registerRelayerMsg (c : Chain) (auth : Addr) (q : Chain) (relayers : List Addr)
+  /-- `MsgSetRoutingRules` -/
+  | setRulesMsg (c : Chain) (auth : Addr) (rules : List Str)
+  /-- `MsgUpdateClient` signed by `signer`; `headerOk` = the light client accepts the header
+      (decided by C07 / C17 / C18) -/
+  | updateClientMsg (c : Chain) (signer : Addr) (q : Chain) (h t : Nat) (headerOk : Bool)
   /-- NFT-module user messages -/
   | nftIssue (c : Chain) (sender : Addr) (cls : Str) (mintRestricted : Bool)
   | nftMint (c : Chain) (sender : Addr) (cls id : Str) (uri : String) (recipient : Addr)
@@ -113,6 +125,71 @@ def mtBurnMsg (s : State) (sender : Addr) (cls id : Str) (amt : Nat) : State × 
   if amt == 0 then (s, .err (.app "sdk/18"))
   else userTx s (liftApps s (liftMt s.apps (s.apps.mt.burn cls id amt sender)))
 
+/-! ### governance / relayer messages of the client and routing sub-modules -/
+
+/-- `host.ClientIdentifierValidator`: 9–64 identifier characters -/
+def chainNameOk (n : Chain) : Bool :=
+  decide (9 ≤ n.length) && decide (n.length ≤ 64) && n.toList.all Routing.isIdChar
+
+def setClient (s : State) (q : Chain) (cl : Client) : State :=
+  { s with core := { s.core with clients := upd s.core.clients q (some cl) } }
+
+/-- `msgServer.CreateClient` (after `ValidateBasic`) -/
+def createClientMsg (s : State) (auth : Addr) (q : Chain) (ctype : String) (h t period : Nat) (csValid : Bool)
+    (consSame : Bool) (sn : Snapshot) : State × Res :=
+  if !addrValid auth then (s, .err .invalidAddress)
+  else if !chainNameOk q then (s, .err (.app "host"))
+  else if !csValid then (s, .err (.app "clientstate"))
+  else if s.core.authority != auth then (s, .err .unauthorized)
+  else match s.core.clients q with
+    | some _ => (s, .err .clientExists)
+    | none =>
+      -- the Tendermint client's `Initialize` refuses a consensus state of another type
+      if ctype == "007-tendermint" && !consSame then (s, .err (.app "tibc-client/8"))
+      else (setClient s q (Client.init ctype h t period sn), .ok)
+
+/-- `msgServer.UpgradeClient` -/
+def upgradeClientMsg (s : State) (auth : Addr) (q : Chain) (ctype : String) (h t period : Nat) (csValid : Bool)
+    (consSame : Bool) (sn : Snapshot) : State × Res :=
+  if !addrValid auth then (s, .err .invalidAddress)
+  else if !chainNameOk q then (s, .err (.app "host"))
+  else if !csValid then (s, .err (.app "clientstate"))
+  else if s.core.authority != auth then (s, .err .unauthorized)
+  else match s.core.clients q with
+    | none => (s, .err .clientNotFound)
+    | some cl =>
+      if cl.ctype != ctype then (s, .err .invalidClientType)
+      -- a consensus state of another client type is stored as given but cannot be read back
+      else (setClient s q { cl with latest := h, cons := upd cl.cons h (if consSame then some sn else none),
+                                    consTime := upd cl.consTime h t, period := period }, .ok)
+
+/-- `msgServer.RegisterRelayer` -/
+def registerRelayerMsg (s : State) (auth : Addr) (q : Chain) (relayers : List Addr) : State × Res :=
+  if !addrValid auth then (s, .err .invalidAddress)
+  else if !chainNameOk q then (s, .err (.app "host"))
+  else if relayers.isEmpty then (s, .err (.app "gov"))
+  else if !relayers.all addrValid then (s, .err .invalidAddress)
+  else if s.core.authority != auth then (s, .err .unauthorized)
+  else ({ s with core := { s.core with relayers := upd s.core.relayers q relayers } }, .ok)
+
+/-- `msgServer.SetRoutingRules` -/
+def setRulesMsg (s : State) (auth : Addr) (rules : List Str) : State × Res :=
+  if !addrValid auth then (s, .err .invalidAddress)
+  else if !rules.all Routing.ruleOk then (s, .err .invalidRule)
+  else if s.core.authority != auth then (s, .err .unauthorized)
+  else ({ s with core := { s.core with rules := some rules } }, .ok)
+
+/-- `msgServer.UpdateClient` -/
+def updateClientMsg (s : State) (signer : Addr) (q : Chain) (h t : Nat) (headerOk : Bool) (sn : Snapshot) : State × Res :=
+  if !(s.core.relayers q).contains signer then (s, .err .unauthorized)
+  else match s.core.clients q with
+    | none => (s, .err .clientNotFound)
+    | some cl =>
+      if !cl.active s.core.now then (s, .err .clientNotActive)
+      else if !headerOk then (s, .err (.app "header"))
+      else (setClient s q { cl with latest := if h > cl.latest then h else cl.latest,
+                                    cons := upd cl.cons h (some sn), consTime := upd cl.consTime h t }, .ok)
+
 section
 variable (H : Data → Digest) (Hc : Str → Str)
 
@@ -149,6 +226,14 @@ def step (w : World) : Op → World × Res
   | .setTime c now =>
     let s := w c
     (setChain w c { s with core := { s.core with now := now } }, .ok)
+  | .createClientMsg c auth q ctype h t period v cs =>
+    let r := createClientMsg (w c) auth q ctype h t period v cs (w q).core.ps.snapshot; (setChain w c r.1, r.2)
+  | .upgradeClientMsg c auth q ctype h t period v cs =>
+    let r := upgradeClientMsg (w c) auth q ctype h t period v cs (w q).core.ps.snapshot; (setChain w c r.1, r.2)
+  | .registerRelayerMsg c auth q rs => let r := registerRelayerMsg (w c) auth q rs; (setChain w c r.1, r.2)
+  | .setRulesMsg c auth rules => let r := setRulesMsg (w c) auth rules; (setChain w c r.1, r.2)
+  | .updateClientMsg c signer q h t ok =>
+    let r := updateClientMsg (w c) signer q h t ok (w q).core.ps.snapshot; (setChain w c r.1, r.2)
   | .nftIssue c a cls mr => let (s, r) := nftIssueMsg (w c) a cls mr; (setChain w c s, r)
   | .nftMint c a cls id uri rc => let (s, r) := nftMintMsg (w c) a cls id uri rc; (setChain w c s, r)
   | .nftSend c a cls id rc => let (s, r) := nftSendMsg (w c) a cls id rc; (setChain w c s, r)
